@@ -24,6 +24,17 @@ fn gen_tags(spec: &Value, port: usize, len: usize, rng: &mut Rng) -> Vec<(usize,
         id += 1;
     };
     match mode {
+        "burst" => {
+            // alternating burst start (true) / end (false) tags
+            let mut p = rng.below(4);
+            let mut on = true;
+            while p < len {
+                out.push((p, "burst".to_string(), TagValue::Bool(on)));
+                on = !on;
+                p += 1 + rng.below(7);
+            }
+            return out;
+        }
         "first_last" => {
             push(&mut out, 0);
             push(&mut out, len - 1);
@@ -52,7 +63,7 @@ fn gen_tags(spec: &Value, port: usize, len: usize, rng: &mut Rng) -> Vec<(usize,
     out.sort_by_key(|t| t.0);
     out
 }
-fn ring_in<T: Val>(spec: &Value, port: usize, rng: &mut Rng) -> (Box<dyn InPort>, ReadStream<T>) {
+pub fn ring_in<T: Val>(spec: &Value, port: usize, rng: &mut Rng) -> (Box<dyn InPort>, ReadStream<T>) {
     let data = gen_data::<T>(spec, port, rng);
     let tags = gen_tags(spec, port, data.len(), rng);
     let (p, r) = InRing::new(data, tags);
@@ -351,6 +362,7 @@ pub fn make(spec: &Value, rng: &mut Rng) -> Result<Rig, String> {
         }
         "VectorSource<Big>" => {
             let data = gen_data::<Big>(spec, 0, rng);
+            SRC_DATA.with(|d| *d.borrow_mut() = data.iter().map(|x| x.num().unwrap_or(NONUM)).collect());
             let (mut b, o) = VectorSource::new(data);
             if let Some(r) = spec["params"]["repeat"].as_u64() {
                 b.set_repeat(rustradio::Repeat::finite(r));
@@ -359,6 +371,7 @@ pub fn make(spec: &Value, rng: &mut Rng) -> Result<Rig, String> {
         }
         "VectorSource<u8>" => {
             let data = gen_data::<u8>(spec, 0, rng);
+            SRC_DATA.with(|d| *d.borrow_mut() = data.iter().map(|x| x.num().unwrap_or(NONUM)).collect());
             let (mut b, o) = VectorSource::new(data);
             if let Some(r) = spec["params"]["repeat"].as_u64() {
                 b.set_repeat(rustradio::Repeat::finite(r));
